@@ -1505,7 +1505,11 @@ def optimize_blockwise_fusion_array(expr):
         seen = set()
         stack = [expr]
         dependents = defaultdict(set)  # name -> set of dependent names
-        dependencies = {}  # name -> set of dependency names
+        # name -> dependency names, as insertion-ordered dict keys: the group
+        # (hence the fused node's name and operand order) is built by iterating
+        # them, and a set of strings iterates in hash-seed order, which made
+        # optimized graph keys differ between processes.
+        dependencies = {}
         expr_mapping = {}  # name -> expr
 
         while stack:
@@ -1516,7 +1520,7 @@ def optimize_blockwise_fusion_array(expr):
             seen.add(node._name)
 
             if is_fusable_blockwise(node):
-                dependencies[node._name] = set()
+                dependencies[node._name] = {}
                 if node._name not in dependents:
                     dependents[node._name] = set()
                 expr_mapping[node._name] = node
@@ -1525,7 +1529,7 @@ def optimize_blockwise_fusion_array(expr):
                 stack.append(operand)
                 if is_fusable_blockwise(operand):
                     if node._name in dependencies:
-                        dependencies[node._name].add(operand._name)
+                        dependencies[node._name][operand._name] = None
                     dependents[operand._name].add(node._name)
                     expr_mapping[operand._name] = operand
                     expr_mapping[node._name] = node
@@ -1555,7 +1559,7 @@ def optimize_blockwise_fusion_array(expr):
                 seen_in_group.add(node._name)
 
                 group.append(node)
-                for dep_name in dependencies.get(node._name, set()):
+                for dep_name in dependencies.get(node._name, ()):
                     dep = expr_mapping[dep_name]
 
                     stack_names = {s._name for s in stack}
